@@ -194,6 +194,27 @@ func anyNumber(v any, pred func(neg bool) bool) bool {
 	return false
 }
 
+func anyObject(v any, pred func(map[string]any) bool) bool {
+	switch v := v.(type) {
+	case []any:
+		for _, e := range v {
+			if anyObject(e, pred) {
+				return true
+			}
+		}
+	case map[string]any:
+		if pred(v) {
+			return true
+		}
+		for _, e := range v {
+			if anyObject(e, pred) {
+				return true
+			}
+		}
+	}
+	return false
+}
+
 func anyArray(v any, pred func([]any) bool) bool {
 	switch v := v.(type) {
 	case []any:
@@ -226,6 +247,27 @@ func knownLawFailure(name string, x any) string {
 				strings.HasPrefix(s, "\u2028") || strings.HasPrefix(s, "\u2029"))
 		}) {
 			return "yaml-block-scalar-leading-blank"
+		}
+	case "xmlobj":
+		// toXMLFromObject sorts the children by name with sort.Sort (sortx.ProxySort), which is
+		// not stable: with more than 12 children (Go's insertion-sort cut-off) of at least two
+		// different names, children that share a name can change places
+		if anyObject(x, func(m map[string]any) bool {
+			total, repeated := 0, false
+			for k, v := range m {
+				if strings.HasPrefix(k, "@") || strings.HasPrefix(k, "#") {
+					continue
+				}
+				if a, ok := v.([]any); ok {
+					total += len(a)
+					repeated = repeated || len(a) > 1
+				} else {
+					total++
+				}
+			}
+			return total > 12 && repeated
+		}) {
+			return "xml-object-unstable-name-sort"
 		}
 	case "toml":
 		// BurntSushi/toml writes an array that holds a table as an array of tables and silently
@@ -579,6 +621,27 @@ func genLaws(cfg hlib.Config, r *hlib.Rand, o *hlib.Out, ev *evaluator) {
 		}
 		add("xml", xmlTree(r, r.Range(0, 3)))
 		add("xmlseq", xmlSeqTree(r, r.Range(1, 3), "r"))
+		// object form without #seq: children of one name keep their relative order
+		{
+			m := map[string]any{}
+			pool := []string{"a", "b", "c", "d"}[:r.Range(1, 4)]
+			for _, nm := range pool {
+				cnt := r.Range(1, 3)
+				if r.Intn(3) == 0 {
+					cnt = r.Range(4, 20)
+				}
+				if cnt == 1 {
+					m[nm] = fmt.Sprintf("%s0", nm)
+					continue
+				}
+				a := make([]any, cnt)
+				for i := range a {
+					a[i] = fmt.Sprintf("%s%d", nm, i)
+				}
+				m[nm] = a
+			}
+			add("xmlobj", map[string]any{"r": m})
+		}
 		if k%4 == 0 {
 			add("xml", xmlSeqTree(r, r.Range(1, 3), "r"))
 		}
@@ -625,7 +688,7 @@ func genLaws(cfg hlib.Config, r *hlib.Rand, o *hlib.Out, ev *evaluator) {
 	}
 	// the pinned interleaving <r><a>1</a><b>2</b><a>3</a><b>4</b></r>
 	add("xmlseq", parseWire("[s72,n,[[s61,{s2374657874:s31},[]],[s62,{s2374657874:s32},[]],[s61,{s2374657874:s33},[]],[s62,{s2374657874:s34},[]]]]"))
-	for _, name := range []string{"yaml", "toml", "xml", "xmlseq", "csv", "urlquery", "jsonf"} {
+	for _, name := range []string{"yaml", "toml", "xml", "xmlseq", "xmlobj", "jsonf"} {
 		runLaw(o, ev, name, batch[name])
 	}
 
